@@ -71,7 +71,8 @@ def gen_callcache_consts():
         raise ExtractError(f"call_global.inc patches to opcodes {patch_mono}, expected Mono and Native")
     # invalidation: both setters clear the call-site cache
     acc = strip_comments(rd("runtime/src/vm/globals/access.rs"))
-    clears = all("self.call_site_cache.clear()" in fn_body(acc, f) for f in ("set_global", "set_global_by_index"))
+    clear_re = re.compile(r"self\s*\.\s*call_site_cache\s*(\.\s*clear\s*\(\s*\)|\.\s*truncate\s*\(\s*0\s*\)|=\s*Vec::new\s*\(\s*\))")
+    clears = all(clear_re.search(fn_body(acc, f)) is not None for f in ("set_global", "set_global_by_index"))
     # fast path: does 78 compare the cached pointer with the current global before using the entry?
     mono = strip_comments(rd("runtime/src/vm/dispatch/ops/call_global_mono.inc"))
     miss = mono.find("self.globals_by_index[idx]")
